@@ -130,6 +130,13 @@ def c16_group(seed, idx, algo):
         mapped = [[a[j] * x + b[j] for j, x in enumerate(p)] for p in base.trace["points"]]
         ml = None if base.trace["last"] is None else [a[j] * x + b[j] for j, x in enumerate(base.trace["last"])]
         if is_exact:
+            # the map must really be exact on everything this run produced (deep chains of cells run out of mantissa
+            # bits after a translation): check the round trip on every coordinate, else compare with the tolerance
+            pts_all = base.trace["points"] + ([base.trace["last"]] if base.trace["last"] is not None else [])
+            is_exact = all(((a[j] * x + b[j]) - b[j]) / a[j] == x for p in pts_all for j, x in enumerate(p))
+            if not is_exact:
+                base.tags["c16-exactness-lost-in-deep-cells"] += 1
+        if is_exact:
             ok = same_points(mapped, v.trace["points"]) and same_points([ml], [v.trace["last"]])
         else:
             # inexact map: compare to 1e-9 relative to the size of the image box in each dimension
